@@ -263,6 +263,23 @@ def h_inplane(env, equal=False, by_value=False):
     env.check("cone_inplane_pair_ranges", env.and_(env.ge(ip[0], 0.0), env.le(ip[0], 180.0), env.ge(c[0], 0.0), env.le(c[0], 180.0)))
 
 
+def h_selectors(env):
+    """compare_rotations(rotation_type=...) returns exactly the element of the ('all') triple it names"""
+    g = env.module("geom")
+    t1, t2 = _tri(env, "a"), _tri(env, "b")
+    A1, A2 = _arr(env, [t1]), _arr(env, [t2])
+    full = g.compare_rotations(A1, A2)
+    for k, sel in enumerate(("angular_distance", "cone_distance", "in_plane_distance")):
+        one = g.compare_rotations(A1, A2, rotation_type=sel)
+        env.check("selector_%s_is_element_%d_of_the_triple" % (sel, k), env.eq(one[0], full[k][0]))
+    raised = False
+    try:
+        g.compare_rotations(A1, A2, rotation_type="something_else")
+    except Exception:
+        raised = True
+    env.check("unknown_selector_is_rejected", env.true() if raised else _false(env))
+
+
 def h_normals_from_angles(env, n=2):
     g = env.module("geom")
     ts = [_tri(env, "a%d" % i) for i in range(n)]
@@ -316,7 +333,7 @@ def h_angles_from_normals(env, case="generic", order="zxz"):
 def jobs(tier, seed):
     j = [("h_angular", {"n": 1}), ("h_angular", {"n": 2}), ("h_angular", {"n": 1, "compose": "left"}), ("h_angular", {"n": 1, "compose": "right"}),
          ("h_trace_lemma", {"side": "left"}), ("h_trace_lemma", {"side": "right"}), ("h_triangle", {"via": "arrays"}), ("h_triangle", {"via": "rotations"}),
-         ("h_angular_equal", {}), ("h_angular_near", {"delta": 0.02}), ("h_angular_symmetric", {}), ("h_cone", {"n": 1}), ("h_cone", {"n": 2}), ("h_cone", {"n": 1, "via": "compare_cone"}), ("h_cone", {"n": 1, "via": "compare_all"}), ("h_inplane", {}), ("h_inplane", {"equal": True}), ("h_inplane", {"by_value": True}),
+         ("h_angular_equal", {}), ("h_angular_near", {"delta": 0.02}), ("h_angular_symmetric", {}), ("h_cone", {"n": 1}), ("h_cone", {"n": 2}), ("h_cone", {"n": 1, "via": "compare_cone"}), ("h_cone", {"n": 1, "via": "compare_all"}), ("h_selectors", {}), ("h_inplane", {}), ("h_inplane", {"equal": True}), ("h_inplane", {"by_value": True}),
          ("h_normals_from_angles", {"n": 1}), ("h_normals_from_angles", {"n": 2}),
          ("h_angles_from_normals", {"case": "generic"}), ("h_angles_from_normals", {"case": "z"}), ("h_angles_from_normals", {"case": "xz_plane"}),
          ("h_angles_from_normals", {"case": "y_axis"}), ("h_angles_from_normals", {"case": "generic", "order": "zzx"})]
